@@ -3,7 +3,7 @@ Helper lemmas for C02: `Tidy` classes – the issued and suspended maps have pai
 keys and no key is in both – and the updates that keep a class tidy.  No property statements.
 -/
 import KrillModel.Ca.LemmasShrink
-import KrillModel.Ca.ReachQ
+import KrillModel.Ca.Reach
 namespace KM.CaK
 open KM.Res KM.AMap
 
@@ -17,14 +17,16 @@ def Tidy (rc : Rc) : Prop := TidyC rc.certs
 
 theorem tidyC_empty : TidyC {} := ⟨List.nodup_nil, List.nodup_nil, fun k h => by simp at h⟩
 
-theorem tidyC_addIssued {cs : ChildCerts} (h : TidyC cs) (p : KeyId × ChildCert)
-    (hp : get cs.suspended p.1 = none) : TidyC (cs.addIssued p) := by
-  refine ⟨nodup_set h.ndI _ _, h.ndS, ?_⟩
+theorem tidyC_addIssued {cs : ChildCerts} (h : TidyC cs) (p : KeyId × ChildCert) : TidyC (cs.addIssued p) := by
+  refine ⟨nodup_set h.ndI _ _, nodup_del h.ndS _, ?_⟩
   intro k hk
-  simp only [ChildCerts.addIssued, get_set] at hk ⊢
+  simp only [ChildCerts.addIssued, get_set, get_del] at hk ⊢
   by_cases hpk : p.1 = k
-  · subst hpk; exact hp
-  · simp only [hpk, if_false] at hk; exact h.disj k hk
+  · simp [hpk]
+  · simp only [hpk, if_false] at hk ⊢; exact h.disj k hk
+
+theorem tidyC_unsuspend {cs : ChildCerts} (h : TidyC cs) (p : KeyId × ChildCert) : TidyC (cs.unsuspend p) :=
+  tidyC_addIssued h p
 
 theorem tidyC_removeRevoked {cs : ChildCerts} (h : TidyC cs) (k0 : KeyId) : TidyC (cs.removeRevoked k0) := by
   refine ⟨nodup_del h.ndI _, nodup_del h.ndS _, ?_⟩
@@ -42,16 +44,17 @@ theorem tidyC_suspend {cs : ChildCerts} (h : TidyC cs) (p : KeyId × ChildCert) 
   · simp [hpk] at hk
   · simp only [hpk, if_false] at hk ⊢; exact h.disj k hk
 
-theorem tidyC_foldl_addIssued {cs : ChildCerts} (h : TidyC cs) (l : List (KeyId × ChildCert))
-    (hl : ∀ p ∈ l, get cs.suspended p.1 = none) : TidyC (l.foldl ChildCerts.addIssued cs) := by
+theorem tidyC_foldl_addIssued {cs : ChildCerts} (h : TidyC cs) (l : List (KeyId × ChildCert)) :
+    TidyC (l.foldl ChildCerts.addIssued cs) := by
   induction l generalizing cs with
   | nil => exact h
-  | cons p t ih =>
-    simp only [List.foldl_cons]
-    refine ih (tidyC_addIssued h p (hl p (List.mem_cons_self ..))) ?_
-    intro q hq
-    simp only [ChildCerts.addIssued]
-    exact hl q (List.mem_cons_of_mem _ hq)
+  | cons p t ih => exact ih (tidyC_addIssued h p)
+
+theorem tidyC_foldl_unsuspend {cs : ChildCerts} (h : TidyC cs) (l : List (KeyId × ChildCert)) :
+    TidyC (l.foldl ChildCerts.unsuspend cs) := by
+  induction l generalizing cs with
+  | nil => exact h
+  | cons p t ih => exact ih (tidyC_unsuspend h p)
 
 theorem tidyC_foldl_removeRevoked {cs : ChildCerts} (h : TidyC cs) (l : List KeyId) :
     TidyC (l.foldl ChildCerts.removeRevoked cs) := by
@@ -65,48 +68,10 @@ theorem tidyC_foldl_suspend {cs : ChildCerts} (h : TidyC cs) (l : List (KeyId ×
   | nil => exact h
   | cons p t ih => exact ih (tidyC_suspend h p)
 
-/-- An update that issues only for keys without suspended entry keeps the maps tidy. -/
-theorem tidyC_applyUpd {cs : ChildCerts} (h : TidyC cs) (u : CertUpd) (hu : u.unsuspended = [])
-    (hi : ∀ p ∈ u.issued, get cs.suspended p.1 = none) : TidyC (cs.applyUpd u) := by
-  simp only [ChildCerts.applyUpd, hu, List.foldl_nil]
-  exact tidyC_foldl_suspend (tidyC_foldl_removeRevoked (tidyC_foldl_addIssued h _ hi) _) _
-
-theorem tidyC_shrink {cs : ChildCerts} (h : TidyC cs) {cert : Cert} {na : Int} {upd : CertUpd}
-    (hsh : cs.shrinkOverclaiming cert na = .ok upd) : TidyC (cs.applyUpd upd) := by
-  unfold ChildCerts.shrinkOverclaiming at hsh
-  cases h1 : shrinkList cs.issued cert na with
-  | error e => simp [h1] at hsh
-  | ok pr1 =>
-    obtain ⟨iss, rem1⟩ := pr1
-    simp only [h1] at hsh
-    cases h2 : shrinkList cs.suspended cert na with
-    | error e => simp [h2] at hsh
-    | ok pr2 =>
-      obtain ⟨sus, rem2⟩ := pr2
-      simp only [h2, Except.ok.injEq] at hsh; subst hsh
-      refine tidyC_applyUpd h _ rfl ?_
-      intro p hp
-      obtain ⟨_, _, h3⟩ := shrinkList_spec h1
-      have hk : p.1 ∈ keys cs.issued := h3 p.1 (Or.inr (List.mem_map.mpr ⟨p, hp, rfl⟩))
-      exact h.disj p.1 (get_isSome_iff_mem_keys.mpr hk)
-
-theorem tidyC_activate {cs : ChildCerts} (h : TidyC cs) {cert : Cert} {na : Int} {upd : CertUpd}
-    (hac : cs.activateKey cert na = .ok upd) : TidyC (cs.applyUpd upd) := by
-  unfold ChildCerts.activateKey at hac
-  cases h1 : reissueAll cs.issued cert na with
-  | error e => simp [h1] at hac
-  | ok iss =>
-    simp only [h1] at hac
-    cases h2 : reissueAll cs.suspended cert na with
-    | error e => simp [h2] at hac
-    | ok sus =>
-      simp only [h2, Except.ok.injEq] at hac; subst hac
-      refine tidyC_applyUpd h _ rfl ?_
-      intro p hp
-      have hkeys := (reissueAll_spec h1).2
-      have hk : p.1 ∈ keys cs.issued := by
-        have : p.1 ∈ iss.map (·.1) := List.mem_map.mpr ⟨p, hp, rfl⟩
-        rw [hkeys] at this; exact this
-      exact h.disj p.1 (get_isSome_iff_mem_keys.mpr hk)
+/-- Every update keeps the maps tidy (since fix bb96d233 `add_issued_certificate` clears the
+suspended entry itself). -/
+theorem tidyC_applyUpd {cs : ChildCerts} (h : TidyC cs) (u : CertUpd) : TidyC (cs.applyUpd u) := by
+  simp only [ChildCerts.applyUpd]
+  exact tidyC_foldl_suspend (tidyC_foldl_removeRevoked (tidyC_foldl_unsuspend (tidyC_foldl_addIssued h _) _) _) _
 
 end KM.CaK
